@@ -1,0 +1,7 @@
+//go:build !verif
+
+package fzf
+
+// verifPoint marks a point that an external verification harness can hold.
+// It does nothing unless fzf is built with the "verif" build tag.
+func verifPoint(name string) {}
